@@ -132,6 +132,12 @@ def run(ctx):
                        "arrivals only through the sources' poll phase (true of lib/loop_*.c: qb_loop_level_item_add "
                        "is only called there); the theorems allow arrivals at any time"]
     vlib.lean_prepare(ctx)
+    # tie T3: the update of p_stop must still be an isolated function of p_stop alone that translates
+    # (Gen/SchedC.lean; Lemmas/SchedC.lean proves it equal to the model's rotation)
+    for w in ctx.warnings:
+        if "qb_loop_run" in w and "cannot be translated" in w:
+            ctx.broken.append("translation tie of the p_stop rotation (tools/extract.d/SchedC.json -> Gen/SchedC.lean, "
+                              "theorems Lemmas.SchedC.nextStop_c_*) no longer applies to lib/loop.c: " + w)
     ctx.compile_lib(sources=LOOP_SOURCES)
     exe = ctx.compile_harness("loop/loop_drv.c")
     if ctx.replay:
